@@ -197,6 +197,37 @@ func c15Run(w *core.W, q *dns.Msg, envs [][]*model.Rec, tsig bool, f c15Fault, r
 		extra := &model.Msg{ID: id, Bits: 0x8400, An: envs[0]}
 		all = append(all, frame(extra.Wire())...)
 	}
+	// how the octets reach the secondary: in one piece, with the first length prefix split, octet by
+	// octet, or in seeded chunks (segment boundaries inside length prefixes and headers)
+	if f.kind != "eof" {
+		switch mode := (len(all) + int(id)) % 4; mode {
+		case 1:
+			cl.SetReadPlan([]int{1, len(all)})
+		case 2:
+			n := len(all)
+			if n > 1500 {
+				n = 1500
+			}
+			ones := make([]int, n)
+			for i := range ones {
+				ones[i] = 1
+			}
+			cl.SetReadPlan(ones)
+		case 3:
+			var plan []int
+			x := uint32(len(all))*2654435761 + uint32(id)
+			for left := len(all); left > 0; {
+				x = x*1664525 + 1013904223
+				c := 1 + int(x>>16)%97
+				if c > left {
+					c = left
+				}
+				plan = append(plan, c)
+				left -= c
+			}
+			cl.SetReadPlan(plan)
+		}
+	}
 	go func() {
 		if f.kind == "eof" {
 			n := f.at
